@@ -248,12 +248,29 @@ impl Ord for Number {
                     l.cmp(&(*r as u64))
                 }
             }
-            (_, _) => {
-                let l = OrderedFloat(self.as_f64().unwrap());
-                let r = OrderedFloat(other.as_f64().unwrap());
-                l.cmp(&r)
-            }
+            (Number::Float64(l), Number::Float64(r)) => OrderedFloat(*l).cmp(&OrderedFloat(*r)),
+            (Number::Int64(l), Number::Float64(r)) => cmp_int_float(*l as i128, *r),
+            (Number::UInt64(l), Number::Float64(r)) => cmp_int_float(*l as i128, *r),
+            (Number::Float64(l), Number::Int64(r)) => cmp_int_float(*r as i128, *l).reverse(),
+            (Number::Float64(l), Number::UInt64(r)) => cmp_int_float(*r as i128, *l).reverse(),
         }
+    }
+}
+
+// Compare an integer with a float by their exact mathematical values.
+// Converting the integer to f64 would round integers beyond 2^53 and make
+// distinct integers compare equal to the same float.
+// NaN is greater than any integer, the same as in `OrderedFloat`.
+fn cmp_int_float(i: i128, f: f64) -> Ordering {
+    if f.is_nan() {
+        return Ordering::Less;
+    }
+    // `as` truncates toward zero and saturates; every i64 and u64 is far inside the i128 range.
+    let t = f as i128;
+    match i.cmp(&t) {
+        // the integral part of `f` equals `i`, the fraction decides; `t as f64` is exact here.
+        Ordering::Equal => OrderedFloat(t as f64).cmp(&OrderedFloat(f)),
+        ord => ord,
     }
 }
 
